@@ -44,7 +44,11 @@ RULE = ("cases = random argument trees (attrs instances of 13 classes at every p
         "value predicate}, every filter also answering with truthy / falsy NON-bool verdicts (1/0, 'keep'/None, 'x'/'', "
         "[0]/[], 0.5/0.0, (None,)/(), objects with scripted __bool__: harness-only, 45% of the filtered cases) "
         "x dict_factory in {dict, OrderedDict} / tuple_factory in {tuple, list} x value_serializer in "
-        "{None, wrap everything, wrap int/str/None, wrap every non-container non-instance value} x FAULTS (22% of the cases: the k-th call of value_serializer / filter / "
+        "{None, wrap everything, wrap int/str/None, wrap every non-container non-instance value, SUBSTITUTE: for the "
+        "inputs it targets (one scalar of the argument / every scalar / every value of a field name / everything) return "
+        "one hostile object -- None, 0, '', b'', NOTHING, empty and non-empty list / tuple / namedtuple / frozenset / "
+        "dict / OrderedDict, an attrs instance, a list or dict holding one -- and the argument itself otherwise (14% of "
+        "the asdict cases, no fault there)} x FAULTS (22% of the cases: the k-th call of value_serializer / filter / "
         "dict_factory / tuple_factory raises TypeError / ValueError / KeyError / StopIteration / AttributeError / a "
         "BaseException-only class, k over every existing position and the first missing one, only for calls that "
         "complete without the fault) x HISTORY (7%: a fresh set of classes, or classes that are plain while warm-up "
@@ -54,6 +58,8 @@ RULE = ("cases = random argument trees (attrs instances of 13 classes at every p
         "depend on; non-trivial = the argument holds a container or instance below the "
         "top level; distinct = distinct JSON case")
 ASSUMPTIONS = [
+    "the substituting serializer's replacement holds nothing it would replace again when converted as a field value (else the real call recurses without end) and no hashable attrs instance; objects it returns count as pre-existing objects (`same`)",
+    "dict_factory / tuple_factory results other than dict / OrderedDict / tuple / list are not explored (falsy results are: the empty OrderedDict and the empty tuple of a field-less class)",
     "a filter's verdict is read by truthiness: the verdict objects are harness-only variation, the model sees the boolean",
     "opaque leaf objects are named by (kind, n) tokens; the same token is the same object; they are kept out of sets (identity hash -> iteration order)",
     "faults are injected only into calls that complete without them (decided by a dry run of the real code at generation time), so the injected exception is the only one in play and whether the k-th call exists does not depend on evaluation order; the model counts the calls of each callback (verified for every k by the correspondence)",
@@ -83,6 +89,9 @@ LEVEL_TEXT = (
     "C13_keys_nested, C13_recurse_off_identity, C13_no_instances_left, C13_container_shapes(+_field), "
     "C13_fault_propagates (an exception raised by any callback makes the call raise it: nothing swallowed, no partial "
     "result; model side: call counts per callback, tied for every k), C13_callback_counts_flat, "
+    "C13_serializer_result_is_used (whatever the serializer returns -- None, falsy, NOTHING, containers, instances -- is "
+    "what lands in the result: stored below field level and with recurse=False, converted like a field value at field "
+    "level; the substituting layer anythingS/fieldS is proved to compute the reference too), "
     "C13_serializer_positions / C13_serializer_everywhere, C13_astuple_positional, C13_astuple_matches_asdict, "
     "C13_roundtrip_flat (cls(**asdict(x)) modelled directly as keyword binding for flat public classes, not through "
     "the C01 initializer model), C13_exclude_is_negation, C13_nextgen_retains, C13_pure (trivial in the model: "
@@ -214,6 +223,9 @@ for _c in CLASSES:
     CLS_FIELDS.append([{"name": a.name, "sig": _sig(a), "init": bool(a.init)} for a in attr.fields(_c)])
 
 
+FIELD_NAMES = {f["name"] for fs in CLS_FIELDS for f in fs}
+
+
 def _check_family(fam):
     """a fresh / late-decorated family has the same fields (names, order, Attribute ==) as the fixed one"""
     for i, c in enumerate(fam.classes):
@@ -266,7 +278,35 @@ class Ser:
 
 
 def _is_scalar(v):
+    """int / str / None of the model"""
     return v is None or type(v) in (int, str)
+
+
+def target_hits(target, a, v, reg, fam):
+    if target == "all":
+        return True
+    if target == "scalars":
+        return _is_scalar(v)
+    if "field" in target:
+        return a is not None and a.name == target["field"]["name"]
+    t = atom_py(target["atomIs"]["a"], reg, fam)
+    if _is_scalar(t):
+        return _is_scalar(v) and type(v) is type(t) and v == t
+    return v is t
+
+
+def subst_serializer(subst, reg, fam):
+    """a serializer with hostile results: for the inputs it targets it returns the one object built from
+    `subst["repl"]` (None, 0, '', NOTHING, a container, an attrs instance), for all others its argument"""
+    repl = reg.get(("repl",), reg)
+    if repl is reg:
+        repl = reg[("repl",)] = build(subst["repl"], reg, fam)
+    target = subst["target"]
+
+    def ser(inst, a, v):
+        return repl if target_hits(target, a, v, reg, fam) else v
+
+    return ser
 
 
 def serializers(fam):
@@ -308,6 +348,8 @@ OPAQUE = {
     1: [int, PlainCls, dict, collections.OrderedDict, Mixin],
     3: [collections, json],
     4: [_fn0, (lambda: 0), len],
+    6: [attr.NOTHING],
+    7: [b"", b"\x00"],
 }
 OPAQUE_KINDS = [0, 0, 0, 1, 1, 2, 2, 3, 4, 5]
 
@@ -336,7 +378,11 @@ def atom_py(a, reg=None, fam=None):
         return a["int"]["n"]
     if "obj" in a:
         return obj_py(a["obj"]["kind"], a["obj"]["n"], reg if reg is not None else {}, fam or FAMILY0)
-    return f"s{a['str']['n']}"
+    n = a["str"]["n"]
+    return "" if n == STR_EMPTY else f"s{n}"
+
+
+STR_EMPTY = 999      # the token of the empty string
 
 
 _STR = re.compile(r"^s(\d+)$")
@@ -347,6 +393,8 @@ def py_atom(v):
         return "none"
     if type(v) is int:
         return {"int": {"n": v}}
+    if v == "":
+        return {"str": {"n": STR_EMPTY}}
     m = _STR.match(v)
     if not m:
         return {"str": {"n": 999998}}      # a string that cannot come out of the model (e.g. a field name as a value)
@@ -438,7 +486,7 @@ def to_out(v, reg, fam=FAMILY0):
         return {"coll": {"same": same, "k": {"ntuple": {"ty": nk[0]}}, "items": [to_out(i, reg, fam) for i in v]}}
     if t is dict or t is collections.OrderedDict:
         k = "dict" if t is dict else "odict"
-        if not same and len(v) > 0 and all(type(x) is str and not _STR.match(x) for x in v):
+        if not same and len(v) > 0 and all(type(x) is str and x in FIELD_NAMES for x in v):
             return {"record": {"k": k, "items": [[n, to_out(x, reg, fam)] for n, x in v.items()]}}
         return {"dict": {"same": same, "k": k, "items": [[to_out(a, reg, fam), to_out(b, reg, fam)] for a, b in v.items()]}}
     return {"atom": {"a": {"str": {"n": 999999}}}}    # something that cannot come out of the model
@@ -539,7 +587,7 @@ class FaultBox:
         return (self.exc_type is StopIteration and type(e) is RuntimeError and e.__cause__ is self.exc)
 
 
-def call(case, inst, fam=FAMILY0, box=None):
+def call(case, inst, fam=FAMILY0, box=None, reg=None):
     cfg = case.get("cfg", {})
     explicit = cfg.get("explicit", True)
     box = box or FaultBox(None, None)
@@ -563,7 +611,10 @@ def call(case, inst, fam=FAMILY0, box=None):
     if flt is not None or explicit:
         kw["filter"] = flt
     if case["api"] == "asdict":
-        ser = serializers(fam)[case["ser"]]
+        if case["ser"] == "subst":
+            ser = subst_serializer(case["subst"], reg if reg is not None else {}, fam)
+        else:
+            ser = serializers(fam)[case["ser"]]
         if box.wraps("ser") and ser is not None:
             base_ser = ser
 
@@ -624,7 +675,7 @@ def run_once(case, inst, reg, fam):
     """one measured call -> (result JSON, fault fired, raw result or None)"""
     box = FaultBox(case.get("fault"), case.get("cfg", {}).get("faultExc"))
     try:
-        res = call(case, inst, fam, box)
+        res = call(case, inst, fam, box, reg)
     except BaseException as e:  # noqa: BLE001
         return {"exc": {"e": "fault" if box.is_mine(e) else common.exc_kind(e)}}, box.fired, None, box
     return {"ok": {"v": to_out(res, reg, fam)}}, box.fired, res, box
@@ -655,12 +706,16 @@ def observe(case):
         fam = FAMILY0
     else:
         needed = _classes_in(case["value"], set())
+        if case.get("subst"):
+            _classes_in(case["subst"]["repl"], needed)
         if history == "fresh":               # classes created after the process has converted many other things
             fam = Family(needed=needed)
         else:                                # plain classes that become attrs classes in place after a warm-up
             fam = Family(late=cfg.get("late", range(NCLS)), needed=needed)
     reg = {}
     inst = build(case["value"], reg, fam)
+    if case["ser"] == "subst" and case.get("subst"):
+        reg[("repl",)] = build(case["subst"]["repl"], reg, fam)
     if history != "fixed":
         objs = [o for o in reg.values() if type(o) in fam.cid]
         warm_up(objs, fam)                   # plain classes are seen here while they are not attrs classes yet
@@ -691,7 +746,8 @@ def count_calls(case):
     box = FaultBox(None, None, wrap_all=True)
     ok = True
     try:
-        call(dict(case, fault=None), build(case["value"], {}), FAMILY0, box)
+        reg = {}
+        call(dict(case, fault=None), build(case["value"], reg), FAMILY0, box, reg)
     except BaseException:  # noqa: BLE001
         ok = False
     return ok, box.counts
@@ -892,6 +948,7 @@ def rand_opts(rng, value):
         "tupleFactory": rng.choice(["tuple", "tuple", "list"]),
         "ser": rng.choice(["off", "off", "off", "wrap", "wrapLeaf", "wrapLeaf", "wrapAtoms"]) if api == "asdict" else "off",
         "fault": None,
+        "subst": None,
         "cfg": {"explicit": rng.random() < 0.6, "positional": rng.random() < 0.3, "history": "fixed",
                 "twice": rng.random() < 0.25,
                 "verdict": rng.choice(list(VERDICTS)) if rng.random() < 0.45 else "bool"},
@@ -903,7 +960,7 @@ SITES = ["ser", "filter", "dictFactory", "tupleFactory"]
 
 def site_ok(case, site):
     if site == "ser":
-        return case["api"] == "asdict" and case["ser"] != "off"
+        return case["api"] == "asdict" and case["ser"] not in ("off", "subst")
     if site == "filter":
         return case["filter"] != "none"
     if site == "dictFactory":
@@ -914,7 +971,7 @@ def site_ok(case, site):
 def add_fault(case, rng):
     """the k-th call of one of the callbacks raises; only for calls that complete without the fault; k is drawn
     over every position that exists plus the first one that does not"""
-    if "inst" not in case["value"]:
+    if "inst" not in case["value"] or case["ser"] == "subst":
         return
     sites = [s for s in SITES if site_ok(case, s)]
     if not sites:
@@ -929,6 +986,93 @@ def add_fault(case, rng):
     case["fault"] = {"site": site, "k": k}
     case["cfg"]["faultExc"] = rng.choice(["typeError", "typeError", "valueError", "keyError", "stopIteration",
                                           "attributeError", "abort"])
+
+
+def _scalars_in(node, acc):
+    if "atom" in node:
+        a = node["atom"]["a"]
+        if a == "none" or "obj" not in a:
+            acc.append(node)
+    elif "inst" in node:
+        for _, v in node["inst"]["fields"]:
+            _scalars_in(v, acc)
+    elif "coll" in node:
+        for v in node["coll"]["items"]:
+            _scalars_in(v, acc)
+    else:
+        for k, v in node["dict"]["items"]:
+            _scalars_in(k, acc)
+            _scalars_in(v, acc)
+    return acc
+
+
+def _hits_tree(target, fld, node):
+    """Lean `Target.hits`"""
+    if target == "all":
+        return True
+    if target == "scalars":
+        return "atom" in node and (node["atom"]["a"] == "none" or "obj" not in node["atom"]["a"])
+    if "field" in target:
+        return fld == target["field"]["name"]
+    return "atom" in node and node["atom"]["a"] == target["atomIs"]["a"]
+
+
+def repl_safe(target, node, member=False):
+    """Lean `replSafeF` / `replSafeM` (+ no hashable instance): converting the replacement as a field value hands
+    the serializer nothing it would replace again"""
+    if "atom" in node:
+        return not (member and _hits_tree(target, None, node))
+    if "inst" in node:
+        d = node["inst"]
+        return d["hsh"] is None and all(not _hits_tree(target, f["name"], v) and repl_safe(target, v) for f, v in d["fields"])
+    if "coll" in node:
+        return all(repl_safe(target, v, True) for v in node["coll"]["items"])
+    return all(repl_safe(target, k, True) and repl_safe(target, v, True) for k, v in node["dict"]["items"])
+
+
+O_NOTHING = {"atom": {"a": {"obj": {"kind": 6, "n": 0}}}}
+O_EMPTY_STR = {"atom": {"a": {"str": {"n": STR_EMPTY}}}}
+O_EMPTY_BYTES = {"atom": {"a": {"obj": {"kind": 7, "n": 0}}}}
+
+
+def hostile_results(rng):
+    """what a serializer may return: None, falsy values, NOTHING, containers, attrs instances"""
+    flat = lambda c, vals: {"inst": {"cls": c, "hsh": None, "fields": [[f, v] for f, v in zip(CLS_FIELDS[c], vals)]}}  # noqa: E731
+    other = [O_NOTHING, O_EMPTY_STR, A_int(rng.randrange(90, 99)), A_NONE]
+    pick = lambda: rng.choice(other)  # noqa: E731
+    return [
+        A_NONE, A_NONE, A_NONE, A_int(0), O_EMPTY_STR, O_EMPTY_BYTES, O_NOTHING, A_int(rng.randrange(90, 99)),
+        A_str(rng.randrange(20, 30)),
+        coll("list", []), coll("tuple", []), dct("dict", []), coll("frozenset", []),
+        coll("list", [pick(), pick()]), coll("tuple", [pick()]), nt(1, [pick(), O_NOTHING]),
+        dct("odict", [(O_NOTHING, pick())]), dct("dict", [(A_int(91), coll("list", [O_EMPTY_STR]))]),
+        flat(4, []), flat(0, [pick(), pick()]), flat(7, [O_NOTHING, coll("list", [O_EMPTY_STR])]),
+        flat(2, [pick(), pick(), O_NOTHING]), coll("list", [flat(0, [O_NOTHING, O_EMPTY_STR])]),
+        dct("dict", [(A_int(92), flat(10, [O_NOTHING, O_EMPTY_BYTES, O_EMPTY_STR]))]),
+    ]
+
+
+def add_subst(case, rng):
+    """a value_serializer with hostile RESULTS for some or all inputs (asdict, no fault)"""
+    v = case["value"]
+    if case["api"] != "asdict" or "inst" not in v:
+        return
+    r = rng.random()
+    scal = _scalars_in(v, [])
+    if r < 0.45 and scal:
+        target = {"atomIs": {"a": rng.choice(scal)["atom"]["a"]}}
+    elif r < 0.65:
+        target = "scalars"
+    elif r < 0.9:
+        target = {"field": {"name": rng.choice(NAMES)}}
+    else:
+        target = "all"
+    cands = [x for x in hostile_results(rng) if repl_safe(target, x)]
+    if not cands:
+        return
+    case["ser"] = "subst"
+    case["subst"] = {"target": target, "repl": rng.choice(cands)}
+    case["fault"] = None
 
 
 def add_history(case, rng):
@@ -1021,7 +1165,9 @@ def gen_cases(tier, rng):
             case["api"] = "asdict"
         if not _valid(case):
             continue
-        if rng.random() < 0.22:
+        if rng.random() < 0.14:
+            add_subst(case, rng)
+        if case["ser"] != "subst" and rng.random() < 0.22:
             add_fault(case, rng)
         if rng.random() < 0.07:
             add_history(case, rng)
@@ -1093,6 +1239,10 @@ def dist(case, obs):
         "roundtrip": obs.get("roundtrip") if isinstance(obs, dict) else "?",
         "explicit_args": case.get("cfg", {}).get("explicit"),
         "history": case.get("cfg", {}).get("history", "fixed"),
+        "subst_target": (lambda t: None if t is None else (t if isinstance(t, str) else next(iter(t))))(
+            (case.get("subst") or {}).get("target") if case["ser"] == "subst" else None),
+        "subst_result": (lambda x: None if x is None else (next(iter(x)) if "atom" not in x else json.dumps(x["atom"]["a"])))(
+            (case.get("subst") or {}).get("repl") if case["ser"] == "subst" else None),
         "filter_verdict": case.get("cfg", {}).get("verdict", "bool") if case["filter"] != "none" else None,
         "opaque_leaves": sorted(_opaque_kinds(case["value"], set())),
         "twice": case.get("cfg", {}).get("twice", False),
@@ -1155,6 +1305,8 @@ A_INT0 = A_int(0)
 
 def shrink(case):
     cfg = case.get("cfg", {})
+    if case["ser"] == "subst":
+        yield dict(case, ser="off", subst=None)
     if case.get("fault") is not None:
         yield dict(case, fault=None)
         if case["fault"]["k"] > 1:
@@ -1209,6 +1361,11 @@ def _neighbours(case, rng):
     for ser in ("off", "wrap", "wrapLeaf", "wrapAtoms"):
         if case["api"] == "asdict":
             yield dict(case, ser=ser)
+    if case["api"] == "asdict" and "inst" in case["value"]:
+        for target in ("scalars", "all"):
+            for repl in (A_NONE, O_NOTHING, coll("list", [])):
+                if repl_safe(target, repl):
+                    yield dict(case, ser="subst", subst={"target": target, "repl": repl}, fault=None)
     for _ in range(6):
         yield dict(case, filter=rand_filter(rng))
     yield dict(case, dictFactory="odict", tupleFactory="list")
